@@ -31,6 +31,8 @@ RELOC_PRIMS = {"read_address", "read_offset", "read_sized_offset"}
 def check_read(ctx, case, o, stats):
     kind = case["kind"]
     tag = "%s-v%d%s" % (kind, case["ver"], "-tu" if case.get("tu") else "")
+    if kind in ("ehframe", "ehhdr"):
+        tag = "%s-format%d-app%d-asz%d" % (kind, case.get("form", 0), case["ver"], case["asz"])
     fields = case["fields"]
     small = {k: case[k] for k in ("kind", "ver", "asz", "tu", "main", "applied", "relmap")}
     d1, d2 = o["d1"], o["d2"]
